@@ -560,3 +560,64 @@ func TestValidAccepted(t *testing.T) {
 		chkValid.Run(rt, &LoadCase{Src: src, Text: string(src), Kind: "validity"})
 	})
 }
+
+// well-nested programs with locals, labels and gotos at random places (valid and invalid uses): the front-end's label
+// resolution must end in a function or a syntax error for each of them
+func genGotoBlock(rt *rapid.T, b *strings.Builder, depth int) {
+	n := rapid.IntRange(0, 5).Draw(rt, "nstmts")
+	for i := 0; i < n; i++ {
+		lbl := []string{"l1", "l2", "l3"}[rapid.IntRange(0, 2).Draw(rt, "label")]
+		k := rapid.IntRange(0, 13).Draw(rt, "stmt")
+		if depth <= 0 && k >= 6 && k <= 11 {
+			k = 0
+		}
+		switch k {
+		case 0, 1:
+			b.WriteString("local " + []string{"a", "b", "c"}[rapid.IntRange(0, 2).Draw(rt, "name")] + " = 1\n")
+		case 2, 3:
+			b.WriteString("goto " + lbl + "\n")
+		case 4, 5:
+			b.WriteString("::" + lbl + "::\n")
+		case 6:
+			b.WriteString("do\n")
+			genGotoBlock(rt, b, depth-1)
+			b.WriteString("end\n")
+		case 7:
+			b.WriteString("while x do\n")
+			genGotoBlock(rt, b, depth-1)
+			b.WriteString("end\n")
+		case 8:
+			b.WriteString("repeat\n")
+			genGotoBlock(rt, b, depth-1)
+			b.WriteString("until " + []string{"x", "a", "b"}[rapid.IntRange(0, 2).Draw(rt, "cond")] + "\n")
+		case 9:
+			b.WriteString("if x then\n")
+			genGotoBlock(rt, b, depth-1)
+			if rapid.Bool().Draw(rt, "else") {
+				b.WriteString("else\n")
+				genGotoBlock(rt, b, depth-1)
+			}
+			b.WriteString("end\n")
+		case 10:
+			b.WriteString("for i = 1, 2 do\n")
+			genGotoBlock(rt, b, depth-1)
+			b.WriteString("end\n")
+		case 11:
+			b.WriteString("local function f()\n")
+			genGotoBlock(rt, b, depth-1)
+			b.WriteString("end\n")
+		case 12:
+			b.WriteString("print(a, b)\n")
+		default:
+			b.WriteString("x = function() return a end\n")
+		}
+	}
+}
+
+func TestLoadGotoPrograms(t *testing.T) {
+	vf.Rapid(t, func(rt *rapid.T) {
+		var b strings.Builder
+		genGotoBlock(rt, &b, 3)
+		chkRepeat.Run(rt, &LoadCase{Src: []byte(b.String()), Text: b.String(), Kind: "goto_program"})
+	})
+}
